@@ -20,6 +20,7 @@ type CVal struct {
 	IsNil  bool       // the untyped nil literal
 	SRef   bool       // T is the address of a struct object of type Typ (not a datatype value)
 	IsCell bool       // T is the address of a closure cell holding a value of type Typ's element
+	Suffix string     // component suffix of a cell that is a protected local of the current function
 	Pkg    *types.Package
 	Lit    *string // string literal (for content-expanded comparisons)
 }
@@ -129,7 +130,7 @@ func (vc *FuncVC) lookupIdent(env *Env, name string) *CVal {
 			if isStruct(elem) {
 				return &CVal{T: v.T, Typ: elem, SRef: true}
 			}
-			return &CVal{T: Select(env.st.get(vc.cellComp(elem, "")), v.T, vc.sortOf(elem)), Typ: elem}
+			return &CVal{T: Select(env.st.get(vc.cellComp(elem, v.Suffix)), v.T, vc.sortOf(elem)), Typ: elem}
 		}
 		return v
 	}
@@ -818,7 +819,11 @@ func (vc *FuncVC) evalCall(env *Env, x *ECall) *CVal {
 				if isStruct(elem) {
 					return &CVal{T: ref, Typ: elem, SRef: true}
 				}
-				return &CVal{T: Select(env.st.get(vc.cellComp(elem, "")), ref, vc.sortOf(elem)), Typ: elem}
+				suffix := ""
+				if mc := vc.closureMC[L]; mc != nil && !env.callee {
+					suffix = vc.localSuffix(mc.Bindings[i])
+				}
+				return &CVal{T: Select(env.st.get(vc.cellComp(elem, suffix)), ref, vc.sortOf(elem)), Typ: elem}
 			}
 		}
 		panic(fmt.Errorf("captured: closure %s does not capture %s", fn.Name(), nm.V))
